@@ -288,8 +288,60 @@ def exhaustive_cases(tier):
     return cases
 
 
+SIGNED_SRC = """import dds
+
+
+def f(a, b=0):
+    return ('f', a, b)
+
+
+def w0():
+    return dds.keep('/s', f, {x})
+
+
+def w1():
+    return dds.keep('/s', f, {y})
+
+
+def w2():
+    return dds.keep('/s', f, a={x})
+
+
+def w3():
+    return dds.keep('/s', f, a={y})
+
+
+def w4():
+    return dds.keep('/s', f, 7, b={x})
+
+
+def w5():
+    return dds.keep('/s', f, 7, {y})
+"""
+
+
+def check_signed_literals(ev):
+    """Signed literals written in the source of an evaluated function (-3 is not a constant for the parser): whatever route the
+    analysis takes for them, a kept call with -x must not be served the result stored for x (and vice versa), on one store."""
+    e = env()
+    for (x, y) in [("3", "-3"), ("-3", "3"), ("2.5", "-2.5"), ("-1", "1"), ("0.0", "-0.0"), ("+4", "-4"), ("- 5", "5")]:
+        mod = e.load(SIGNED_SRC.format(x=x, y=y))
+        e.cap.inner.__init__()
+        want = {"w0": ("f", eval(x), 0), "w1": ("f", eval(y), 0), "w2": ("f", eval(x), 0), "w3": ("f", eval(y), 0),
+                "w4": ("f", 7, eval(x)), "w5": ("f", 7, eval(y))}
+        for name in ("w0", "w1", "w2", "w3", "w4", "w5", "w1", "w0"):
+            got = e.dds.eval(getattr(mod, name))
+            if repr(got) != repr(want[name]):   # repr: 0.0 and -0.0 compare equal
+                case = {"signed": [x, y], "fun": name}
+                raise Violation(f"source literals {x} / {y}: the kept call in {name} returned {got!r}, plain execution gives {want[name]!r} "
+                                f"(the result stored for the other sign was served)", case)
+        ev.case({"signed_literals": [x, y]}, True, features=["signed-literals-in-source"])
+
+
 def shard_exhaustive(idx, n, tier, seed):
     ev = Ev()
+    if idx == 0:
+        check_signed_literals(ev)
     cases = exhaustive_cases(tier)
     for i in range(idx, len(cases), n):
         check_case(cases[i], ev)
@@ -358,4 +410,6 @@ def run(tier, seed, scale=1.0):
 
 
 def replay(case):
+    if "signed" in case:
+        return check_signed_literals(Ev())
     check_case(case, None)
